@@ -190,6 +190,29 @@ def run_exp(c, rec):
         for i, smp in log:
             require(maxdiff(XA[:, i], smp) == 0, "a stored chain entry differs from the state handed to the callback at that time "
                     "(entry altered later or recorded wrongly)", index=i)
+        # ---- (iii-b) a callback that looks at the sampler: the state it is handed is already part of the record; and a callback that
+        # fails once (the user catches the exception and goes on): no transition gets lost
+        if N + M >= 2:
+            np.random.seed(c["seed"])
+            holder, seen_ns, fail_at = {}, [], 1 + (c["seed"] % (N + M - 1))
+
+            def cb2(sample, idx):
+                seen_ns.append((idx, holder["s"].get_samples().Ns))
+                if idx == Nb + fail_at and not holder.get("failed"):
+                    holder["failed"] = True
+                    raise RuntimeError("user callback failed once")
+            holder["s"] = sR = make_exp(c, cb2)
+            if Nb:
+                sR.warmup(Nb)
+            refused, err = refuses(lambda: sR.sample(N + M))
+            require(refused and "user callback failed once" in str(err), "harness: the failing callback did not interrupt the run")
+            done = chain_of(sR).shape[-1] - Nb if chain_of(sR).size else 0
+            must(lambda: sR.sample(N + M - done), "continuing after a callback failure")
+            XR = chain_of(sR)
+            require(XR.shape == XA.shape and maxdiff(XR, XA) == 0, f"{name}: a run that was interrupted by a failing callback and continued is not the chain of "
+                    "the uninterrupted run (a transition was made but not recorded, or recorded twice)", interrupted=XR.shape, uninterrupted=XA.shape)
+            require(all(ns == i + 1 for i, ns in seen_ns), f"{name}: at the time of the callback the state it is handed is not yet part of the recorded chain",
+                    pairs=seen_ns[:6])
         # ---- (i) continuity: N then M
         np.random.seed(c["seed"])
         sB = make_exp(c)
@@ -299,7 +322,11 @@ def run_leg(c, rec):
         return
     try:
         log = []
-        cb = lambda sample, idx: log.append((idx, np.array(sample, dtype=float).reshape(-1).copy()))
+        class ChainLog(list):
+            """a callable record: an empty list is falsy, yet it is a callback like any other"""
+            def __call__(self, sample, idx):
+                log.append((idx, np.array(sample, dtype=float).reshape(-1).copy()))
+        cb = ChainLog() if c["seed"] % 2 else (lambda sample, idx: log.append((idx, np.array(sample, dtype=float).reshape(-1).copy())))
         np.random.seed(c["seed"])
         s = must(lambda: make_leg(c, cb), f"constructing legacy {name}")
         x0 = np.array(s.x0, dtype=float).copy()
